@@ -250,7 +250,7 @@ func TestC15Search(t *testing.T) {
 		return res
 	})
 
-	nRand := e.Pick(80, 3000)
+	nRand := e.Pick(80, 60000)
 	vlib.RunCases(t, "C15", "search-random", nRand, func(c *vlib.Case) vlib.Result {
 		var res vlib.Result
 		rng := c.Rng
